@@ -82,9 +82,18 @@ def recompiler_globals_are_unique(ctx):
         hole_nodes = []
         for h in holes:
             try:
-                hole_nodes.append(ast.parse(h, mode="eval").body)
+                hn = ast.parse(h, mode="eval").body
             except SyntaxError:
-                pass
+                continue
+            # a hole that is a local assigned once stands for what was assigned (`serial = next(counter)`)
+            seen_names = set()
+            while isinstance(hn, ast.Name) and hn.id not in seen_names and hn.id not in params:
+                seen_names.add(hn.id)
+                defs = _local_defs(rc.node, hn.id)
+                if len(defs) != 1:
+                    break
+                hn = defs[0]
+            hole_nodes.append(hn)
         roots = {n.id for n in ast.walk(v) if isinstance(n, ast.Name)}
         has_counter = any(isinstance(h, ast.Call) and call_name(h) == "next" and h.args and dotted(h.args[0]) in counters for h in hole_nodes)
         has_serial = any(isinstance(h, ast.Attribute) and h.attr in serial_attrs and isinstance(h.value, ast.Name) and h.value.id in params for h in hole_nodes)
@@ -218,6 +227,8 @@ def removal_is_exhaustive(ctx):
         tests = [c for c in tests if not (isinstance(c.comparators[0], ast.Constant) or isinstance(c.left, ast.Constant))]
         if not tests:
             continue
+        if not func_writes(m.node, recv_name(m)):
+            continue  # a query, not a removal
         n += 1
         ctx.touch(m)
         pm = parent_map(m.node)
@@ -328,6 +339,12 @@ def annotations_pass_the_normaliser(ctx):
                     pm = parent_map(f.node)
                 p = pm.get(x)
                 ok = isinstance(p, ast.Call) and call_name(p) in names and p.args and p.args[0] is x
+                if not ok and isinstance(p, ast.Assign) and len(p.targets) == 1 and isinstance(p.targets[0], ast.Name) and p.value is x:
+                    # kept in a local: every use of the local must be the normaliser's argument
+                    v = p.targets[0].id
+                    loads = [u for u in ast.walk(f.node) if isinstance(u, ast.Name) and u.id == v and isinstance(u.ctx, ast.Load)]
+                    stores = [u for u in ast.walk(f.node) if isinstance(u, ast.Name) and u.id == v and isinstance(u.ctx, ast.Store)]
+                    ok = bool(loads) and len(stores) == 1 and all(isinstance(pm.get(u), ast.Call) and call_name(pm.get(u)) in names and pm.get(u).args and pm.get(u).args[0] is u for u in loads)
                 n += 1
                 ctx.touch(f)
                 ctx.ob(
@@ -341,12 +358,17 @@ def annotations_pass_the_normaliser(ctx):
 
 
 # ---------------------------------------------------------------------------------------- eq / hash
-def _attrs_read(m):
+def _attrs_read(m, depth=0):
+    """Attributes of the receiver a method consults, looking through helper methods of its class (two levels)."""
     rv = recv_name(m)
     out = set()
     for x in ast.walk(m.node):
         if is_self_attr(x, selfname=rv):
-            out.add(x.attr)
+            h = m.cls.methods.get(x.attr) if m.cls is not None else None
+            if h is not None and h is not m and depth < 2:
+                out |= _attrs_read(h, depth + 1)
+            else:
+                out.add(x.attr)
     return out
 
 
